@@ -247,6 +247,22 @@ def shard_subroutine(shard):
             except Exception as exc:
                 add_violation(part, "raises/SubroutineMessage", f"{type(exc).__name__}: {exc}", case)
         count(part, "type/SubroutineMessage", len(seqs))
+    # the payload is opaque bytes: every first byte (= every version major, incl. the message-type value itself), repeated
+    # prefixes, and every 2-byte header prefix
+    payloads = [bytes([a, b, 5, 0]) + bytes([4, 4, 7, 0, 0, 0, 0]) for a in range(256) for b in (0, a, 255)]
+    payloads += [bytes([a]) * k for a in (0, 1, 2, 3, 4, 255) for k in (1, 2, 3, 4, 11)]
+    payloads += [b""]
+    for raw in payloads:
+        part["evals"] += 1
+        part["distinct"] += 1
+        try:
+            dec = M.deserialize_host_msg(bytes(M.SubroutineMessage(raw)))
+            if type(dec) is not M.SubroutineMessage or dec.subroutine != raw:
+                add_violation(part, "field/SubroutineMessage/payload-bytes", "subroutine payload bytes change in the message round trip",
+                              {"class": "SubroutineMessage", "payload": raw}, {"got": dec.subroutine})
+        except Exception as exc:
+            add_violation(part, "raises/SubroutineMessage", f"{type(exc).__name__}: {exc}", {"class": "SubroutineMessage", "payload": raw})
+    count(part, "subroutine-payloads", len(payloads))
     return part
 
 
@@ -278,6 +294,7 @@ def run(ctx):
     ctx.require("arrays-all", 1 + 6 + 36 + 216 + 1296)
     ctx.require("arrays-with-undefined", 1)
     ctx.require("arrays-patterns", 100)
+    ctx.require("subroutine-payloads", 700)
 
 
 def replay(case, part):
